@@ -22,7 +22,6 @@ def reviewed : List (String × String) := [
   ("cmd.buildRunner: $1.MustGetStepValidateServicesExist", "as above"),
   ("imports.imports.Alias: index $1[len($1)-1]", "strings.Split never returns an empty slice"),
   ("regex.Match: index $1[$2]", "i ranges over SubexpNames, FindStringSubmatch has that length after MatchString succeeded"),
-  ("regex.MustCompileAz: regexp.MustCompile", "package-level constants only: compiled at init, every pattern regenerated and parsed by the translator"),
   ("resolver.NonStringPrimitiveResolver.ResolveArg: exporter.MustExport", "only after Supports: non-string primitive"),
   ("resolver.PatternResolver.ResolveArg: assert $1.(string)", "ArgResolver calls ResolveArg only after Supports, which checks for a string"),
   ("resolver.ServiceResolver.ResolveArg: assert $1.(string)", "as above"),
@@ -42,7 +41,7 @@ def recognisedGuards : List String :=
    "full slice", "index by a loop counter into a slice made with that length",
    "index by a range key into a slice made with that length", "index by a sort callback argument",
    "index by the counter of a loop bounded by len of the same slice", "index by the key of a range over the same slice",
-   "index from the end under a length check", "slice from one past a strings index of the same string",
+   "index from the end under a length check", "Must call in a function used only by package-level initialisers", "slice from one past a strings index of the same string",
    "slice past a prefix under an equality or HasPrefix check", "type assertion in comma-ok form"]
 
 /-- **every panic-capable construct of the tool is guarded in a recognised way or is one of the reviewed ones** — the
